@@ -401,10 +401,10 @@ SHAPES_QUICK = ["record/base_arg", "record/base_arg_two_paths", "record/no_base"
                 "record/ostree_missing_ref", "record/dir", "record/base_setting", "run/streams", "run/no_streams",
                 "run/failing_command", "run/no_such_command", "run/unwritable_metadata_dir", "record_start",
                 "record_start_stop", "record_stop/no_preliminary", "match_products", "record/exclude_setting_special",
-                "run/exclude_setting_special"] + list(VERIFY_SHAPES)
+                "run/exclude_setting_special", "match_products/base_setting_collision", "match_products/base_setting"] + list(VERIFY_SHAPES)
 
 
-SHAPES_THOROUGH = SHAPES_QUICK + ["record/ostree_ok", "match_products/base_setting_collision", "match_products/base_setting",
+SHAPES_THOROUGH = SHAPES_QUICK + ["record/ostree_ok",
                                   "record_start/collision", "run/collision_products", "run/base_setting", "run/timeout"]
 
 
